@@ -349,7 +349,17 @@ impl LocalNode {
     {
         let node = &self.node.get().expect("LocalNode::with ensures it is set");
         debug_assert_eq!(node.in_use.load(Relaxed), NODE_USED);
-        node.helping.help(&who.helping, storage_addr, replacement)
+        // `help` may run a nested load on this thread, which may replace our node (generation
+        // wrap-around), therefore it asks for the current one again afterwards.
+        let current = || -> &'static HelpingSlots {
+            &self
+                .node
+                .get()
+                .expect("LocalNode::with ensures it is set")
+                .helping
+        };
+        node.helping
+            .help(&who.helping, storage_addr, replacement, &current)
     }
 }
 
